@@ -1181,8 +1181,21 @@ async fn judge_ended(side: &mut Side, on: &str, log: &Log) {
 async fn judge_subsequent(side: &mut Side, on: &str, log: &Log) {
     let Some(pc) = side.pc.clone() else { return };
     log.step(&format!("{}.<subsequent calls>", side.name));
-    let (p1, p2, p3, p4) = (pc.clone(), pc.clone(), pc.clone(), pc);
+    let (p1, p2, p3, p4, p5, p6, p7, p8) = (pc.clone(), pc.clone(), pc.clone(), pc.clone(), pc.clone(), pc.clone(), pc.clone(), pc);
     let ended = is_terminal(side.state());
+    // further public async calls: whatever they answer, they must answer
+    let (s1, s2, s3, s4) = tokio::join!(
+        tokio::time::timeout(GRACE, async move { p5.get_stats().await.is_ok() }),
+        tokio::time::timeout(GRACE, async move { p6.create_answer().await.is_ok() }),
+        tokio::time::timeout(GRACE, async move { p7.send_text(0, "after").await.is_ok() }),
+        tokio::time::timeout(GRACE, async move { p8.send_raw_rtp(rustrtc::rtp::RtpPacket::new(rustrtc::rtp::RtpHeader::new(96, 1, 1, 0x0c17_0c17), vec![1, 2, 3])).await.is_ok() }),
+    );
+    for (name, r) in [("get_stats", s1), ("create_answer", s2), ("send_text", s3), ("send_raw_rtp", s4)] {
+        match r {
+            Ok(ok) => log.note(format!("{} subsequent {name} -> {}", side.name, if ok { "Ok" } else { "Err" })),
+            Err(_) => side.fail_once(log, on, &format!("hang:{name}(subsequent)"), format!("{}: {name}() called after the event did not return within {:?} (state {:?})", side.name, GRACE, side.state())),
+        }
+    }
     let (a, b, c, g) = tokio::join!(
         tokio::time::timeout(GRACE, async move { p1.send_data(0, b"after").await.is_ok() }),
         tokio::time::timeout(GRACE, async move { p2.create_offer().await.is_ok() }),
